@@ -94,6 +94,10 @@ class BaseTimeSeries(BaseEstimator):
         :param sample_weight: weights None or array [n_obs]
         :return: *X*, *y*, *sample_weight*
         """
+        if hasattr(self, "preprocessing_"):
+            # left by a previous fit: the series is checked against
+            # what this fit needs, not against the context of the previous one
+            del self.preprocessing_
         check_ts_X_y(self, X, y)
 
         if self.preprocessing is not None:
@@ -102,9 +106,6 @@ class BaseTimeSeries(BaseEstimator):
             xyw = self.preprocessing_.transform(X, y, sample_weight)
             X, y = xyw[:2]
             sample_weight = xyw[-1] if sample_weight is not None else None
-        elif hasattr(self, "preprocessing_"):
-            # left by a previous fit with a preprocessing
-            del self.preprocessing_
         return X, y, sample_weight
 
     def _base_fit_predict(self, X, y, sample_weight=None):
